@@ -321,6 +321,12 @@ func c20History(t *testing.T, rec *vlib.Rec, idx int) {
 			ps = c20WithGR(ps, gr)
 			rec.Count("peers_with_graceful_restart", 1)
 		}
+		if gr.IntN(3) == 0 {
+			// a real hold timer: the speaker sends KEEPALIVEs itself and can be told to go silent, so that
+			// hold-timer expiry (alone, or crossing the speaker's own NOTIFICATION + close) happens too
+			ps.Hold, ps.Keepalive = uint16(3*(1+gr.IntN(3))), true
+			rec.Count("peers_with_hold_timer", 1)
+		}
 		sp, err := n.addPeer(ps)
 		if err != nil {
 			rec.Inconclusive("c20: AddPeer: " + err.Error())
@@ -357,6 +363,20 @@ func c20History(t *testing.T, rec *vlib.Rec, idx int) {
 		if r.IntN(3) == 0 {
 			c.mgmtOp(r)
 			rec.Count("mgmt_ops", 1)
+		}
+		if gr.IntN(12) == 0 {
+			for _, p := range h.peers {
+				if p.up && p.spec.Keepalive {
+					crossing := gr.IntN(2) == 0
+					p.sp.goSilent(crossing)
+					rec.Count("hold_timer_expiries_provoked", 1)
+					rec.Count("hold_timer_expiries_crossing_peer_notification", b2i(crossing))
+					if gr.IntN(2) == 0 {
+						time.Sleep(time.Duration(p.spec.Hold)*time.Second + time.Second)
+					}
+					break
+				}
+			}
 		}
 		h.step()
 		rec.Count("events", 1)
